@@ -7,3 +7,4 @@ import GormModel.Props.C19
 import GormModel.Props.C18
 import GormModel.Props.C17
 import GormModel.Props.C05
+import GormModel.Props.C13
